@@ -617,6 +617,8 @@ class PyGen:
         if first is not None and first.k == 'n' and first.s in ('match', 'case'):
             d = 0
             for t in ts:
+                if t.pair is not None:
+                    continue  # redundant parentheses may be dropped by the layout: they do not count as nesting
                 if t.k == '(':
                     d += 1
                 elif t.k == ')':
